@@ -82,7 +82,9 @@ def tus(tier, seed, section=None):
         # exact-value oracle), including unsigned narrowest types filled to their full width
         ehdr = os.path.join(os.path.dirname(os.path.abspath(hdr)), 'C05.h')
         rnd = random.Random(seed * 41 + 11)
-        es = [(8, 'u8', -3, 8, 'u8', 2), (16, 'u16', 0, 7, 'i8', -5), (32, 'u32', -8, 32, 'u32', -8), (63, 'i64', -10, 20, 'i32', 3), (64, 'u64', 4, 10, 'u8', 0)]
+        es = [(8, 'u8', -3, 8, 'u8', 2), (16, 'u16', 0, 7, 'i8', -5), (32, 'u32', -8, 32, 'u32', -8), (63, 'i64', -10, 20, 'i32', 3), (64, 'u64', 4, 10, 'u8', 0),
+              # aligned digit counts (operand digits + exponent difference) of exactly 32 and 64, signed representations
+              (16, 'i32', 0, 16, 'i32', -16), (32, 'i32', 0, 32, 'i32', -32), (24, 'i16', 3, 10, 'i32', -5), (40, 'i64', 0, 20, 'i32', -24), (8, 'i8', 0, 8, 'i8', -8)]
         for _ in range(2 if tier == 'quick' else 14):
             dl, dr = rnd.choice([4, 8, 16, 24, 31, 32, 40]), rnd.choice([4, 8, 16, 24, 31, 32, 40])
             el, er = rnd.randint(-30, 30), rnd.randint(-30, 30)
